@@ -127,6 +127,36 @@ def owner(R):
                     if (name, recv) == ('add_header', 'self._headers'):
                         continue          # tabled: request configuration, not connection state
                     bad.append((fi, n, recv + '.' + n.func.attr))
+    # in-place mutation through a local alias of a field (headers = self._headers; headers.extend(...))
+    for name, fi in c.methods.items():
+        if name == '__init__':
+            continue
+        aliases = {}
+        for n in own_nodes(fi.node):
+            if isinstance(n, ast.Assign) and len(n.targets) == 1 and isinstance(n.targets[0], ast.Name) \
+                    and isinstance(n.value, ast.Attribute) and U(n.value).startswith('self.') and not U(n.value).startswith('self.state'):
+                aliases[n.targets[0].id] = U(n.value)
+        for n in own_nodes(fi.node):
+            if isinstance(n, ast.Call) and isinstance(n.func, ast.Attribute) and isinstance(n.func.value, ast.Name) \
+                    and n.func.value.id in aliases and n.func.attr in ('append', 'extend', 'insert', 'pop', 'remove', 'clear',
+                                                                        'update', 'add', 'sort', 'reverse', 'setdefault'):
+                # the alias must not have been re-bound to a copy in between: single assignment of that name
+                binds = [x for x in own_nodes(fi.node) if isinstance(x, ast.Assign) and any(
+                    isinstance(t, ast.Name) and t.id == n.func.value.id for t in x.targets)]
+                if len(binds) == 1:
+                    bad.append((fi, n, '%s (alias of %s).%s' % (n.func.value.id, aliases[n.func.value.id], n.func.attr)))
+    # nobody keeps the event generator: a suspended generator of the previous connection that is dropped by reset()
+    # is finalised *after* the new State is installed, and its cleanup then acts on the new connection
+    for name, fi in c.methods.items():
+        cx = R.types.ctxs.get((fi.qual, WS))
+        if cx is None:
+            continue
+        for n in own_nodes(fi.node):
+            if isinstance(n, ast.Assign):
+                for t in n.targets:
+                    if isinstance(t, ast.Attribute) and any(isinstance(x, str) and x.startswith('gen:session.WebsocketSession.run')
+                                                             for x in R.types.expr(n.value, cx)):
+                        bad.append((fi, n, '%s = <event generator>' % U(t)))
     R.ob('C17.owner', 'WebSocket mutates only self.state outside __init__', not bad,
          '%s writes %s: state kept on the WebSocket object survives reconnects' % (
              bad[0][0].qual if bad else '', bad[0][2] if bad else ''), func=(bad[0][0] if bad else WS + '.connect'),
